@@ -42,10 +42,11 @@ Theorem expand_all_aligned : forall (A : Type) (cs : list A) ns m, pos_list ns -
 Proof. exact @expand_sizes_same_length. Qed.
 Print Assumptions expand_all_aligned.
 
-(* combining per-copy results: a partition of the inputs in order - nothing lost, nothing invented *)
+(* combining per-copy results: a partition of the inputs in order - nothing lost, nothing invented; a result is only
+   returned for non-negative multiplicities (islice raises ValueError on a negative count) *)
 Theorem combine_is_partition : forall (A : Type) (all : list (list A)) mults groups,
-  Forall (fun k => 0 <= k) mults ->
   combine_bitstrings all mults = Some groups ->
+  Forall (fun k => 0 <= k) mults /\
   exists parts, List.concat parts = all /\ map (@List.length _) parts = map Z.to_nat mults /\
                 groups = map (@List.concat A) parts.
 Proof. exact @combine_bitstrings_partition. Qed.
@@ -55,6 +56,11 @@ Theorem combine_rejects_mismatch : forall (A : Type) (all : list (list A)) mults
   Z.of_nat (List.length all) <> zsum mults -> combine_bitstrings all mults = None.
 Proof. exact @combine_bitstrings_rejects. Qed.
 Print Assumptions combine_rejects_mismatch.
+
+Theorem combine_rejects_negative : forall (A : Type) (all : list (list A)) mults,
+  (exists k, In k mults /\ k < 0) -> combine_bitstrings all mults = None.
+Proof. exact @combine_bitstrings_rejects_negative. Qed.
+Print Assumptions combine_rejects_negative.
 
 (* combined counts dictionaries: per-outcome counts and totals are the sums over the group *)
 Theorem combine_counts_exact : forall g r, combine_group g = Some r ->
@@ -233,3 +239,67 @@ Example termination_premises_met :
   andb (run_okb ws 4 draws) (run_avoidb ws 4 draws) = true /\ (List.length ws < List.length draws)%nat /\
   represent ws 4 draws = Some [0; 0; 0; 1; 1; 1; 1].
 Proof. vm_compute. split; [reflexivity|]. split; [repeat constructor|reflexivity]. Qed.
+
+(* ---------------------------------------------------------------- the model functions above ARE the code: expand_sample_sizes,
+   _combine_measurements, combine_measurement_counts, combine_bitstrings, _iterate_in_batches and split_into_batches are
+   translated from circuits/_itertools.py on every run (tr/tr_itertools.py -> Gen/ItertoolsGen.v, construct by construct;
+   meaning of the emitted constants: Stats/ItertoolsTrSupport.v) and proved equal to the model functions used above. *)
+Require Import OQ.Gen.ItertoolsGen OQ.Stats.ItertoolsTrSupport OQ.Stats.ItertoolsGenProofs.
+
+Theorem generated_expand_is_model : forall (A : Type) (cs : list A) ns m,
+  expand_sample_sizes_gen cs ns m = expand_sample_sizes cs ns m.
+Proof. exact expand_sample_sizes_gen_eq. Qed.
+Print Assumptions generated_expand_is_model.
+
+Theorem generated_combine_measurements_is_model : forall a b, combine_measurements_gen a b = combine2 a b.
+Proof. exact combine_measurements_gen_eq. Qed.
+Print Assumptions generated_combine_measurements_is_model.
+
+Theorem generated_combine_counts_is_model : forall all mults,
+  combine_measurement_counts_gen all mults = combine_measurement_counts all mults.
+Proof. exact combine_measurement_counts_gen_eq. Qed.
+Print Assumptions generated_combine_counts_is_model.
+
+Theorem generated_combine_bitstrings_is_model : forall (all : list (list string)) mults,
+  combine_bitstrings_gen all mults = combine_bitstrings all mults.
+Proof. exact combine_bitstrings_gen_eq. Qed.
+Print Assumptions generated_combine_bitstrings_is_model.
+
+(* islice raises on a negative count, whatever the length guard says *)
+Theorem generated_combine_bitstrings_negative_raises : forall (all : list (list string)) mults,
+  (exists k, In k mults /\ k < 0) -> combine_bitstrings_gen all mults = None.
+Proof. exact combine_bitstrings_gen_negative. Qed.
+Print Assumptions generated_combine_bitstrings_negative_raises.
+
+Theorem generated_iterate_in_batches_is_model : forall (A : Type) (xs : list A) k, 0 < k ->
+  iterate_in_batches_gen xs k = Some (chunks (List.length xs) (Z.to_nat k) xs).
+Proof. exact iterate_in_batches_gen_eq. Qed.
+Print Assumptions generated_iterate_in_batches_is_model.
+
+Theorem generated_batches_is_model : forall (A : Type) (cs : list A) ns k,
+  split_into_batches_gen cs ns k = split_into_batches cs ns k.
+Proof. exact split_into_batches_gen_eq. Qed.
+Print Assumptions generated_batches_is_model.
+
+Theorem generated_combine_is_partition : forall (all : list (list string)) mults groups,
+  combine_bitstrings_gen all mults = Some groups ->
+  Forall (fun k => 0 <= k) mults /\
+  exists parts, List.concat parts = all /\ map (@List.length _) parts = map Z.to_nat mults /\
+                groups = map (@List.concat string) parts.
+Proof. exact gen_combine_is_partition. Qed.
+Print Assumptions generated_combine_is_partition.
+
+Theorem generated_expand_run_combine_exact : forall (A : Type) (cs : list A) ns m (res : list (list string)),
+  pos_list ns -> 0 < m ->
+  map (@List.length string) res = map Z.to_nat (snd (fst (expand_sample_sizes_gen cs ns m))) ->
+  exists groups, combine_bitstrings_gen res (snd (expand_sample_sizes_gen cs ns m)) = Some groups /\
+                 map (@List.length string) groups = map Z.to_nat ns.
+Proof. exact gen_expand_run_combine. Qed.
+Print Assumptions generated_expand_run_combine_exact.
+
+Example generated_premises_met :
+  expand_sample_sizes_gen ["a"; "b"]%string [10; 3] 4 = (["a"; "a"; "a"; "b"]%string, [4; 4; 2; 3], [3; 1]) /\
+  combine_bitstrings_gen [["00"; "01"]; ["1"]; ["0"]]%string [1; 2] = Some [["00"; "01"]; ["1"; "0"]]%string /\
+  combine_measurement_counts_gen [[("0", 1); ("1", 2)]; [("2", 1); ("0", 5)]]%string [2] = Some [[("0", 6); ("1", 2); ("2", 1)]]%string /\
+  split_into_batches_gen [1; 2; 3; 4; 5] [10; 30; 20; 7; 9] 2 = Some [([1; 2], 30); ([3; 4], 20); ([5], 9)].
+Proof. vm_compute. repeat split; reflexivity. Qed.
